@@ -366,9 +366,10 @@ def check_function(rep, prog, rule, fn, effect_fn, initial=None, expect_final=No
             why = "held = %s at a %s return" % (show_held(lin_add(h, target, -1)), kind)
             if label:
                 why += " when%s (status of a fallible call that is not tested on this path)" % label
-            bad.setdefault(key, (why, path))
+            if bad.get(key) is None:
+                bad[key] = (why, path)
         else:
-            bad.setdefault(key, None) if key not in bad else None
+            bad.setdefault(key, None)
     for key, v in sorted(bad.items()):
         if v is None:
             rep.ok(rule, key, "balanced on every path to this kind of return")
